@@ -217,33 +217,59 @@ func TestVerifC10SM4(t *testing.T) {
 				}
 				// ---------------- every prefix length 0..200 on the reallocation path (cap too small) and with room
 				if ci%hk.N(12, 3) == 0 {
+					pls := make([]int, 0, 220)
 					for pl := 0; pl <= 200; pl++ {
-						for _, room := range []bool{false, true} {
-							capTotal := pl
-							if room {
-								capTotal = pl + len(sealed) + 3
+						pls = append(pls, pl)
+					}
+					// long prefixes (a record appended to a stream buffer): lengths around one and two bytes' worth
+					pls = append(pls, 255, 256, 257, 300, 511, 512, 1024, 4096, 65535, 65536, 70000)
+					for _, pl := range pls {
+						// room: none, more than needed, and spare capacity that holds the message but NOT the whole result (short by 1
+						// byte, by 5, by a whole tag): the result must then move to new storage, nothing may be written past cap(dst)
+						for _, room := range []int{0, 1, -1, -5, -1000} {
+							short := func(full int) int {
+								switch {
+								case room == 0:
+									return pl
+								case room == 1:
+									return pl + full + 3
+								case room == -1000:
+									if full < a.Overhead() {
+										return pl
+									}
+									return pl + full - a.Overhead()
+								}
+								if full+room < 0 {
+									return pl
+								}
+								return pl + full + room
 							}
-							backing := make([]byte, capTotal)
+							capTotal := short(len(sealed))
+							backing := make([]byte, capTotal+48)
 							for i := range backing {
 								backing[i] = byte(0x3C ^ i)
 							}
+							snap := append([]byte{}, backing...)
 							dst := backing[:pl:capTotal]
 							prefix := append([]byte{}, dst...)
 							var out []byte
 							p, msg, _, _ := hk.Try(func() { out = a.Seal(dst, gNonce.B, gPt.B, gAad.B) })
 							if p || !bytes.Equal(out, append(append([]byte{}, prefix...), sealed...)) {
 								d := c.detail()
-								d["prefix_len"], d["room"], d["panic"], d["got_prefix"] = pl, room, msg, hk.Hex(out[:min(len(out), pl)])
-								r.Violation(fmt.Sprintf("seal-result-not-dst+output:%s:prefix-sweep:room=%v", pn, room), d)
+								d["prefix_len"], d["room"], d["panic"], d["got_prefix"] = pl, capTotal-pl, msg, hk.Hex(out[:min(len(out), min(pl, 64))])
+								r.Violation(fmt.Sprintf("seal-result-not-dst+output:%s:prefix-sweep:room=%d", pn, room), d)
 							}
-							capO := pl
-							if room {
-								capO = pl + len(c.pt) + 3
+							if !bytes.Equal(backing[capTotal:], snap[capTotal:]) {
+								d := c.detail()
+								d["prefix_len"], d["dst_cap"], d["result_len"] = pl, capTotal, pl+len(sealed)
+								r.Violation(fmt.Sprintf("seal-writes-past-the-capacity-of-dst:%s:prefix-sweep:room=%d", pn, room), d)
 							}
-							backing2 := make([]byte, capO)
+							capO := short(len(c.pt))
+							backing2 := make([]byte, capO+48)
 							for i := range backing2 {
 								backing2[i] = byte(0x5A ^ i)
 							}
+							snap2 := append([]byte{}, backing2...)
 							dst2 := backing2[:pl:capO]
 							prefix2 := append([]byte{}, dst2...)
 							var pt []byte
@@ -251,11 +277,16 @@ func TestVerifC10SM4(t *testing.T) {
 							p, msg, _, _ = hk.Try(func() { pt, oerr = a.Open(dst2, gNonce.B, gCt.B, gAad.B) })
 							if p || oerr != nil || !bytes.Equal(pt, append(append([]byte{}, prefix2...), c.pt...)) {
 								d := c.detail()
-								d["prefix_len"], d["room"], d["panic"], d["err"] = pl, room, msg, fmt.Sprint(oerr)
-								r.Violation(fmt.Sprintf("open-result-not-dst+output:%s:prefix-sweep:room=%v", pn, room), d)
+								d["prefix_len"], d["room"], d["panic"], d["err"] = pl, capO-pl, msg, fmt.Sprint(oerr)
+								r.Violation(fmt.Sprintf("open-result-not-dst+output:%s:prefix-sweep:room=%d", pn, room), d)
+							}
+							if !bytes.Equal(backing2[capO:], snap2[capO:]) {
+								d := c.detail()
+								d["prefix_len"], d["dst_cap"] = pl, capO
+								r.Violation(fmt.Sprintf("open-writes-past-the-capacity-of-dst:%s:prefix-sweep:room=%d", pn, room), d)
 							}
 						}
-						r.Eval(fmt.Sprintf("%s|prefix-sweep|len%%64=%d", pn, pl%64))
+						r.Eval(fmt.Sprintf("%s|prefix-sweep|len%%64=%d,long=%v", pn, pl%64, pl > 200))
 					}
 				}
 				// ---------------- all inputs as sub-slices of ONE record (spare capacity reaches into the next field)
@@ -315,6 +346,28 @@ func TestVerifC10SM4(t *testing.T) {
 							d["offset_behind_capacity"] = i - room
 							r.Violation("seal-inplace-writes-behind-the-capacity-of-dst:"+pn, d)
 							break
+						}
+					}
+					// the same idiom with the CAPACITY OF dst capped at the message (dst = buf[:0:n]) while the message slice itself
+					// still has spare capacity behind it: the only capacity the callee may use is dst's - the result needs new
+					// storage, and what lies behind the message in the caller's buffer stays as it is
+					if len(c.pt) > 0 {
+						n := len(c.pt)
+						backing2 := bytes.Repeat([]byte{0xD7}, n+c.tag+24)
+						copy(backing2, c.pt)
+						msgSlice := backing2[:n]
+						var out2 []byte
+						p, msg, _, _ := hk.Try(func() { out2 = a.Seal(backing2[:0:n], gNonce.B, msgSlice, gAad.B) })
+						if p || !bytes.Equal(out2, sealed) {
+							d["panic"], d["got"] = msg, hk.Hex(out2)
+							r.Violation("seal-inplace-wrong:dst-capacity-capped-at-the-message:"+pn, d)
+						}
+						for i := n; i < len(backing2); i++ {
+							if backing2[i] != 0xD7 {
+								d["offset_behind_capacity"] = i - n
+								r.Violation("seal-inplace-writes-behind-the-capacity-of-dst:dst-capacity-capped-at-the-message:"+pn, d)
+								break
+							}
 						}
 					}
 					ct := append([]byte{}, sealed...)
